@@ -320,7 +320,21 @@ class LBCheck(BaseCheck):
           ep = rng.choice(pool)
           classes.add('leave-unknown')
         left.add(ep)
+        raising = []
+        if rng.random() < 0.12:
+          # closing the departing member's idle channel reports an error (peer already gone); the
+          # provider logs it and carries on, as the ZooKeeper provider's worker does
+          for c in w.channels:
+            if c.ep == ep and not c.close_steps and w.model_out(c) == 0:
+              c.close_raises = True
+              raising.append(c)
         ss.leave(ep)
+        if raising:
+          env.settle()
+          if any(not c.close_raises for c in raising):
+            classes.add('close-raises-on-leave')
+          for c in raising:
+            c.close_raises = False
       elif op == 'join':
         if ss.truth and rng.random() < 0.2:
           ss.join(rng.choice(sorted(ss.truth, key=str)), duplicate=True)
